@@ -109,9 +109,8 @@ def prodMatches (dataSize : Nat) : List Nat → Nat → Bool
 
 /-- `Parameter::isDimensionConsistent` (Parameter.cpp:232-249) -/
 def dimConsistent (dataSize : Nat) (dims : List Nat) : Bool :=
-  let hasZero := dims.contains 0
-  if dataSize = 0 then dims.length == 0 || hasZero
-  else if hasZero then false
+  if dataSize = 0 then dims.length == 0 || dims.contains 0
+  else if dims.contains 0 then false
   else prodMatches dataSize dims 1
 
 /-- empty `dimension` argument means "one dimension, as long as the data" -/
@@ -119,21 +118,20 @@ def effDims (n : Nat) (dims : List Nat) : List Nat :=
   if dims.length = 0 then [n] else dims
 
 def Param.setInts (p : Param) (data : List Int) (dims : List Nat := []) : Res Param :=
-  let d := effDims data.length dims
-  if dimConsistent data.length d then .ok { p with type := .int, ints := data, dims := d }
+  if dimConsistent data.length (effDims data.length dims)
+  then .ok { p with type := .int, ints := data, dims := effDims data.length dims }
   else .throw .range_error
 
 def Param.setFloats (p : Param) (data : List UInt32) (dims : List Nat := []) : Res Param :=
-  let d := effDims data.length dims
-  if dimConsistent data.length d then .ok { p with type := .float, floats := data, dims := d }
+  if dimConsistent data.length (effDims data.length dims)
+  then .ok { p with type := .float, floats := data, dims := effDims data.length dims }
   else .throw .range_error
 
 def maxLen (data : List Bytes) : Nat := data.foldl (fun m s => if s.length > m then s.length else m) 0
 
 def Param.setStrs (p : Param) (data : List Bytes) (dims : List Nat := []) : Res Param :=
-  let d := effDims data.length dims
-  if dimConsistent data.length d then
-    .ok { p with type := .char, strs := data, dims := maxLen data :: d }
+  if dimConsistent data.length (effDims data.length dims) then
+    .ok { p with type := .char, strs := data, dims := maxLen data :: effDims data.length dims }
   else .throw .range_error
 
 /-- the setters used internally with default dimensions never fail; total versions -/
